@@ -67,7 +67,7 @@ Step(w) ==
   \/ StartWorkflowCommit(w) \/ StartStageClaim(w) \/ StartStageReplan(w) \/ StartStagePlan(w)
   \/ StartTaskCommit(w) \/ CancelStageCommit(w) \/ Force(w)
   \/ MC_AppendInTxn(w) \/ MC_RecordOwn(w)
-  \/ Publish(w)
+  \/ Publish(w) \/ AuditRecord(w)
   \/ CompleteTaskCommit(w) \/ CompleteStageCommit(w) \/ CompleteStageErrorCommit(w)
   \/ SkipStageCommit(w) \/ CompleteWorkflowCommit(w)
   \/ Return(w) \/ MC_Raise(w) \/ MC_Rollback(w)
